@@ -359,7 +359,9 @@ func c20MantExp(c *hx.Ctx, r *hx.RNG) {
 	switch shape {
 	case 1:
 		mant = newRecv(int64(r.Range(0, 50)), r.Mode())
-		if r.Bool() {
+		if r.Chance(30) {
+			mant = new(decimal.Decimal) // the documented idiom: a zero-value destination
+		} else if r.Bool() {
 			mant.SetInt64(424242)
 		}
 	case 2:
@@ -404,6 +406,28 @@ func c20MantExp(c *hx.Ctx, r *hx.RNG) {
 		back := new(decimal.Decimal).SetMantExp(mant, e)
 		if bv := hx.Read(back); !oracle.Equal(bv, v) || back.Cmp(hx.Mk(v, xp, 0)) != 0 {
 			c.Violate("identity-broken", fmt.Sprintf("%s: SetMantExp(mant, MantExp(mant)) = %s", what, bv.Full()), "")
+		}
+	}
+	// mant and x are two values from now on: modifying one in place must not show in the other
+	if shape == 1 && v.Form == oracle.Finite {
+		xRaw := hx.RawOf(x)
+		if mp := mant.MinPrec(); mp > 1 {
+			mant.SetPrec(mp - 1)
+		}
+		mant.Neg(mant)
+		mant.Add(mant, mant)
+		if !xRaw.Identical(hx.RawOf(x)) {
+			c.Violate("operand-modified", fmt.Sprintf("%s: rounding, negating and doubling mant in place afterwards changed x to %s", what, hx.RawOf(x)), "")
+			return
+		}
+		mRaw := hx.RawOf(mant)
+		if mp := x.MinPrec(); mp > 1 {
+			x.SetPrec(mp - 1)
+		}
+		x.Neg(x)
+		x.Add(x, x)
+		if !mRaw.Identical(hx.RawOf(mant)) {
+			c.Violate("operand-modified", fmt.Sprintf("%s: rounding, negating and doubling x in place afterwards changed mant to %s", what, hx.RawOf(mant)), "")
 		}
 	}
 }
